@@ -21,6 +21,10 @@ Proof. intros. apply mask_from_involutive. Qed.
 Theorem C18_length : forall key b, length (mask_spec key b) = length b.
 Proof. intros. apply mask_from_length. Qed.
 
+(* the transform maps bytes to bytes (no value leaves 0..255), for every key of bytes *)
+Theorem C18_bytes : forall key b, wf_bytes key -> wf_bytes b -> wf_bytes (mask_spec key b).
+Proof. intros key b Hk Hb. unfold mask_spec. apply mask_from_wf; assumption. Qed.
+
 (* nothing outside the buffer is touched: masking the region [off, off+len) of a backing array *)
 Theorem C18_in_place : forall off len key arr, (off + len <= length arr)%nat ->
   firstn off (mask_region off len key arr) = firstn off arr
@@ -90,6 +94,7 @@ Print Assumptions C18_impl_is_xor.
 Print Assumptions C18_pointwise.
 Print Assumptions C18_involutive.
 Print Assumptions C18_length.
+Print Assumptions C18_bytes.
 Print Assumptions C18_in_place.
 Print Assumptions C18_region_pointwise.
 Print Assumptions C18_concat.
